@@ -185,6 +185,18 @@ def check(ctx):
         ctx.check(ok_e, "C03.b",
                   "%s::end:clears-flag" % tname, "%s:%d" % (end.file, end.line), "end writes false to %s" % flag,
                   "end does not write constant false to the flag %s" % flag)
+        # the tracker starts out not reacting: its constructor (Default) stores false / None into the flag
+        dfl = [b_ for b_ in prog.bodies if b_.kind == "assoc_fn" and (b_.raw.get("impl_trait") or "").endswith("default::Default")
+               and re.sub(r"<.*$", "", b_.raw.get("impl_self", "")) == ty]
+        for d in dfl:
+            ctx.touch(d)
+            okd = False
+            for b_, i_, st_ in d.iter_stmts():
+                if st_["k"] == "assign" and "agg" in st_["rv"] and st_["rv"]["agg"].get("adt") == ty and flag in st_["rv"]["agg"].get("fields", []):
+                    opf = st_["rv"]["agg"]["ops"][st_["rv"]["agg"]["fields"].index(flag)]
+                    okd = (lib.const_val(opf) == 0) if opt_flag is None else lib.writes_none(d, {"use": opf})
+            ctx.check(okd, "C03.b", "%s::default:starts-not-reacting" % tname, "%s:%d" % (d.file, d.line), "the flag is false / None in a fresh tracker",
+                      "a fresh %s already reports is_reacting() == true: readers outside any reaction would see (stale) event data" % tname)
         # end clears the flag on every path
         wb = [b for b, _, _ in ew]
         w = lib.path_to_return_avoiding(end, [0], wb)
@@ -254,6 +266,14 @@ def check(ctx):
                     for cap in st["rv"]["agg"]["ops"]:
                         for oo in origins(start, cap):
                             inputs.add(oo)
+                    # polarity: the predicate selects an entry only where a comparison with the captured value compared EQUAL
+                    pcb = prog.body(st["rv"]["agg"].get("closure")) if st["rv"]["agg"]["kind"] == "closure" else None
+                    if pcb is not None:
+                        reqs = lib.true_return_requirements(pcb)
+                        okp = bool(reqs) and all(any(v for v in r.values()) for r in reqs)
+                        ctx.check(okp, "C03.e", "%s::start:claims-the-entry-of-its-own-system" % tname, start.loc(b),
+                                  "the claim predicate is true only where the entry's system compared equal to the starting reactor",
+                                  "the claim predicate can select an entry whose system did NOT compare equal to the starting reactor (a run would be handed another system's metadata)")
             param_tys = [start.local_ty(i) for i in range(2, start.arg_count + 1)]
             only_sysid = all(o[0] == "arg" and start.local_ty(o[1]).endswith("SystemCommand") for o in inputs) and bool(inputs)
             ctx.check(not only_sysid, "C03.d", "%s::start:system-id-only" % tname, start.loc(b),
